@@ -12,7 +12,11 @@ Correspondence: the real output and the real prepared stream against the impleme
 `Genshi.Tmpl.implRender` / `Genshi.Tmpl.compile`; the Lean scanners against the compiled regular
 expressions' own `finditer` (`text-scan-tokens`) and against the event stream of `_parse` on raw,
 also malformed, text (`text-scan-parse`); the end-to-end model from source text against the model from
-the AST (`raw-text-compile`) and against the real render (`raw-text-render`).
+the AST (`raw-text-compile`) and against the real render (`raw-text-render`); the specification printer
+of text templates the inversion theorem (`raw_print_roundtrip`) is about against the printer that wrote
+the sources of all these streams (`print-text`; `inversion-hypothesis:*` counts how many generated
+templates are inside the hypothesis of the theorem).  Parameter binding of macros (positional, keyword,
+default, missing) is generated on purpose (`gen_macro_case`, counters `bind:*`).
 """
 import json, random, warnings
 from harness import proto
@@ -32,11 +36,14 @@ TRUSTED = [
     'scanners (Model/TmplScan.lean; the shape of the compiled patterns is checked and their flags are read by '
     'harness/extract_textscan.py), _escape_re.sub, the line splitting of the old syntax, interpolate over the C03 model of lex, '
     'a reader of the mini language and of the directive arguments (Model/TmplRaw.lean) -- tied by the streams text-scan-tokens, '
-    'text-scan-parse, raw-text-compile, raw-text-render; the Python syntax of ${...} / {% python %} sources is judged by CPython',
+    'text-scan-parse, raw-text-compile, raw-text-render; the specification printer Model/TmplPrint.lean (hypothesis side of the '
+    'inversion theorem) -- tied by print-text; the Python syntax of ${...} / {% python %} sources is judged by CPython',
     'not modelled, only exercised: expat and MarkupTemplate._parse (markup source -> parsed stream), genshi.template.eval '
     '(expressions are re-implemented for a mini language: names, None/bool/int/str/list/dict literals, ==, not, len, indexing), '
-    'Attrs.__or__ (C18 model), the serializer; custom delimiters of NewTextTemplate; line numbers / offsets of the events',
-    'outside the model: py:match, <?python?>, xi:include, i18n directives, py:def defaults/*args/**kwargs, tuple '
+    'Attrs.__or__ (C18 model), the serializer; line numbers / offsets of the events; custom delimiters of NewTextTemplate '
+    'whose directive end starts with a word character or a blank (outside the side condition of Model/TmplScanD.lean; inside it the '
+    'parameterised scanner is tied by text-scan-tokens-delims / text-scan-parse-delims)',
+    'outside the model: py:match, <?python?>, xi:include, i18n directives, *args/**kwargs parameters of py:def (defaults and keyword arguments are modelled), tuple '
     'unpacking in py:for / py:with, interpolated attribute values, py: attributes on directive elements (known finding)',
     'the documentation semantics `doc` is a formalisation of doc/xml-templates.rst / text-templates.rst by hand; where '
     'the documents are silent (macro bodies see the caller\'s variables; py:when refers to the innermost choose being '
@@ -49,6 +56,9 @@ ASSUMPTIONS = [
     'parentheses: C03/C13 defect, outside this property); names avoid Python builtins',
     'directive elements (<py:for> ...) carry no further py: attributes (known finding C04-direlem-attrs)',
     'each macro name is defined at most once per template and called only after its definition (no recursion)',
+    'macro calls: positional arguments before keyword arguments, keyword names distinct (Python syntax); where a Python '
+    'function would raise TypeError (surplus positional arguments; a keyword for a parameter already filled by position) the '
+    'documentation semantics follows the engine (the surplus is dropped) -- only surplus positional arguments are generated',
     'scanner oracles: token lists from the grammar of harness/gen_textraw.py / gen_old_toks (texts without $, balanced blocks; a text '
     'in front of a delimiter does not end in a backslash: such a template cannot be written)',
     'two Undefined values are never compared with == (object identity of Undefined is not in the value universe: '
@@ -495,7 +505,9 @@ def expr_of_w(v):
     if k in ('NOT', 'LEN'):
         return [k.lower(), expr_of_w(v[1])]
     if k == 'CALL':
-        return ['call', expr_of_w(v[1])[1], [expr_of_w(a) for a in v[2]]]
+        pos = [expr_of_w(a) for a in v[2] if str(a[0]) != 'KW']
+        kw = [[a[1], expr_of_w(a[2])] for a in v[2] if str(a[0]) == 'KW']
+        return ['call', expr_of_w(v[1])[1], pos] + ([kw] if kw else [])
     raise ValueError(v)
 
 
@@ -506,7 +518,9 @@ def opt_src(v):
 def model_dir(v):
     k = str(v[0])
     if k == 'Def':
-        return ['def', v[1], list(v[2])]
+        # parameter names, and which of them have a default (the default expressions are compared by rendering)
+        return ['def', v[1], [pp if isinstance(pp, str) else pp[1] for pp in v[2]],
+                sorted(pp[1] for pp in v[2] if not isinstance(pp, str))]
     if k in ('When', 'Choose', 'Strip'):
         return [k.lower(), opt_src(v[1])]
     if k == 'Otherwise':
@@ -548,7 +562,7 @@ def real_dir(d):
     name = type(d).tagname
     src = lambda: d.expr.source.strip() if d.expr is not None else None   # the old text syntax keeps the line break
     if name == 'def':
-        return ['def', d.name, list(d.args)]
+        return ['def', d.name, list(d.args), sorted(d.defaults)]
     if name in ('when', 'choose', 'strip'):
         return [name, src()]
     if name == 'otherwise':
@@ -650,6 +664,49 @@ def gen_choose_case(rng, lang):
     return nodes
 
 
+def gen_macro_case(rng, lang):
+    """parameter binding of a macro: a definition whose body shows every parameter (the value and
+    whether it is None), with defaults on the last parameters, followed by calls that pass each
+    parameter by position, by keyword or not at all — values of every type, None and the other
+    falsy values first of all; the names of the parameters shadow context data"""
+    st = G.GenState(rng, lang, {'size': 8})
+    names = list(G.VARS)
+    params = rng.sample(['x', 'y', 'p', 'q'], rng.choice([1, 2, 2, 3]))
+    nd = min(len(params), rng.choice([0, 1, 1, 2, 3]))
+    dflts = []
+    for i in range(len(params) - nd, len(params)):
+        if i > 0 and rng.random() < 0.35:
+            # a default that names an earlier parameter: it is evaluated in the context of the call, where that
+            # name means the outer variable (or nothing), not the argument just bound
+            dflts.append([params[i], ['v', rng.choice(params[:i])]])
+        else:
+            dflts.append([params[i], G.gen_default(rng, names)])
+    arg = ['f', params] + ([dflts] if nd else [])
+    body = []
+    for pn in params:
+        body += [['t', 'a'], ['e', ['v', pn]], ['t', '.'], ['e', ['eq', ['v', pn], ['n']]]]
+    if rng.random() < 0.3:
+        body += G.gen_nodes(st, names + params, 1, False)
+    if lang == 'markup' and rng.random() < 0.5:
+        node = ['el', rng.choice(G.TAGS), [], [['def', arg]], body]
+    else:
+        node = ['d', 'def', arg, body]
+    macro = ['f', params, nd]
+    calls = []
+    for _ in range(rng.choice([1, 2, 3])):
+        call = G.gen_call(rng, names, macro, 'c', 1)
+        if rng.random() < 0.25:
+            # inside a scope that binds a parameter name: the default / the argument is evaluated there
+            calls.append(['d', 'with', [[rng.choice(params), G.gen_argval(rng, names, 0)]], [call]])
+        else:
+            calls.append(call)
+        calls.append(['t', ' '])
+    nodes = G.canon_nodes([node] + calls + [['e', ['v', params[0]]]])
+    if lang == 'oldtext':
+        nodes, _ = G.fix_old(nodes)
+    return nodes
+
+
 def corpus_cases():
     """minimised past disagreements / defects (corpus/C04/*.json), run first by shard 0"""
     import glob, os
@@ -666,6 +723,8 @@ def gen_case(rng, i):
     r = rng.random()
     if r < 0.12:
         nodes = gen_choose_case(rng, lang)
+    elif r < 0.24:
+        nodes = gen_macro_case(rng, lang)
     else:
         nodes = G.gen_template(rng, lang, size=rng.choice([6, 10, 14, 20]), depth=rng.choice([2, 3, 3, 4]),
                                replace_mix=True)
@@ -686,6 +745,33 @@ def features(case):
             c['elem:' + n[1]] = c.get('elem:' + n[1], 0) + 1
         elif n[0] == 'c':
             c['call'] = c.get('call', 0) + 1
+    # how the parameters of the macros are bound by the calls (by the name of the macro: a name is
+    # defined at most once)
+    macros = {}
+    for n in G.walk(case['nodes']):
+        args = [n[2]] if (n[0] == 'd' and n[1] == 'def') else \
+            [a for d, a in n[3] if d == 'def'] if n[0] == 'el' else []
+        for a in args:
+            macros[a[0]] = (list(a[1]), dict((k, v) for k, v in G.def_defaults(a)))
+            c['def:params:%d' % min(len(a[1]), 3)] = c.get('def:params:%d' % min(len(a[1]), 3), 0) + 1
+            if G.def_defaults(a):
+                c['def:with-defaults'] = c.get('def:with-defaults', 0) + 1
+    for n in G.walk(case['nodes']):
+        if n[0] == 'c' and n[1] in macros:
+            params, dflt = macros[n[1]]
+            kw = dict((k, v) for k, v in G.call_kwargs(n))
+            for i, pn in enumerate(params):
+                if i < len(n[2]):
+                    how, val = 'positional', n[2][i]
+                elif pn in kw:
+                    how, val = 'keyword', kw[pn]
+                else:
+                    how, val = ('default' if pn in dflt else 'missing'), None
+                key = 'bind:%s%s%s' % (how, ':param-has-default' if (pn in dflt and how != 'default') else '',
+                                       ':None' if val == ['n'] else ':falsy' if val in G.FALSY else '')
+                c[key] = c.get(key, 0) + 1
+            if len(n[2]) > len(params):
+                c['bind:surplus-positional'] = c.get('bind:surplus-positional', 0) + 1
     return c
 
 
@@ -738,6 +824,21 @@ def raw_model(cases):
         else:
             rend = model_out(b)
         out.append((comp, rend))
+    return out
+
+
+def print_model(cases):
+    """the Lean specification printer (Model/TmplPrint.lean): -> list of (source, hypothesis of the
+    inversion theorem holds for the reading mode of the case) | None"""
+    if not cases:
+        return []
+    out = []
+    for a, c in zip(proto.run_lines(model_lines('printtext', cases)), cases):
+        if a in ('unmodelled', 'bad-op', 'bad-line'):
+            out.append(None)
+            continue
+        v = proto.dec(a)
+        out.append((v[0], str(v[2] if lookup_of(c) == 'strict' else v[1]) == 'T'))
     return out
 
 
@@ -907,6 +1008,29 @@ def scan_part(res, rng, n):
                                           'model': repr(mp)[:600], 'real': repr(rp)[:600], 'source': src})
             elif rp[0] == 'ok' and sum(1 for t in rt if t[0] != 'T') >= 2 and len(src) < 200:
                 res.nontrivial.add(json.dumps(['scan', lang, src]))
+    # custom delimiters of NewTextTemplate: the parameterised scanner (Model/TmplScanD.lean) against finditer of
+    # the expression compiled for these delimiters and against the event stream of _parse
+    dcases = [R.gen_raw_delims(rng) for _ in range(n)]
+    for (dl, src), ans in zip(dcases, R.model_answers_d(dcases)):
+        res.count('delims:%s' % ' '.join(dl))
+        if ans is None:
+            res.count('delims-scan:outside-side-condition')
+            continue
+        mt, mp = ans
+        rt = R.real_tokens_d(dl, src)
+        rp = R.real_parse_d(dl, src)
+        res.evaluations += 1
+        res.streams['text-scan-tokens-delims'] = res.streams.get('text-scan-tokens-delims', 0) + 1
+        if mt != rt:
+            res.disagreements.append({'stream': 'text-scan-tokens-delims', 'case': {'lang': 'newtext', 'delims': list(dl), 'source': src},
+                                      'model': repr(mt)[:600], 'real': repr(rt)[:600], 'source': src})
+        if mp is None:
+            res.count('delims-scan:unmodelled')
+            continue
+        res.streams['text-scan-parse-delims'] = res.streams.get('text-scan-parse-delims', 0) + 1
+        if mp != rp:
+            res.disagreements.append({'stream': 'text-scan-parse-delims', 'case': {'lang': 'newtext', 'delims': list(dl), 'source': src},
+                                      'model': repr(mp)[:600], 'real': repr(rp)[:600], 'source': src})
     toks = [R.gen_ctoks(rng) for _ in range(n)]
     for t, src in zip(toks, R.print_new(toks)):
         res.count('check:scanprint')
@@ -1010,6 +1134,20 @@ def shard(arg):
             if rend != b2:
                 res.disagreements.append({'stream': 'raw-text-render', 'case': c, 'model': repr(rend)[:600],
                                           'real': repr(b2)[:600], 'source': G.source(c['lang'], c['nodes'])})
+        # the specification printer the inversion theorem (raw_print_roundtrip) is about = the printer
+        # that wrote the sources of every other stream; and how many generated templates are inside
+        # the hypothesis of the theorem
+        tc = [c for c in cases if c['lang'] != 'markup']
+        for c, pm in zip(tc, print_model(tc)):
+            if pm is None:
+                res.count('print-text:unmodelled')
+                continue
+            res.streams['print-text'] = res.streams.get('print-text', 0) + 1
+            src = G.source(c['lang'], c['nodes'])
+            if pm[0] != src:
+                res.disagreements.append({'stream': 'print-text', 'case': c, 'model': repr(pm[0])[:600],
+                                          'real': repr(src)[:600], 'source': src})
+            res.count('inversion-hypothesis:%s:%s' % (c['lang'], 'inside' if pm[1] else 'outside'))
         scan_part(res, random.Random('%s/%s/C04-scan' % (seed, idx)), min(600, max(20, (3 * n) // 8)))
     res.samples = [{'lang': c['lang'], 'source': G.source(c['lang'], c['nodes']), 'data': c['data']} for c in cases[:2]]
     return res
